@@ -295,7 +295,7 @@ func runC19(d *RunDesc, res *RunResult) {
 						}
 						for _, k := range ks {
 							for wd := 0; wd < 2; wd++ {
-								sf := Fault{ErrAt: k, ErrKind: (k + wd) % len(injectedErrors), ErrWithData: wd == 1, WriterTo: k%5 == 4}
+								sf := Fault{ErrAt: k, ErrKind: (k + wd) % len(injectedErrors), ErrWithData: wd == 1, WriterTo: k%5 == 4, Transient: (k/2)%2 == 1}
 								switch k % 4 {
 								case 1:
 									sf.Chunks = []int{1}
